@@ -353,15 +353,19 @@ pub fn c13_arithmetic_formula_unregistered() {
     assert!(c2[0].to_bits() == e2.to_bits() || (c2[0].is_nan() && e2.is_nan()), "arithmetic crossover: child2 is not the stated combination");
 }
 /// convexity: for alpha in [0,1] the child gene lies between the parental genes (up to rounding of the two products)
-/// @verif anchor=arithmetic_crossover tier=thorough bound="length 1; |p|,|q| <= 1e100, alpha in [0,1]"
-#[cfg_attr(kani, kani::proof)] #[cfg_attr(kani, kani::unwind(4))]
-pub fn c13_arithmetic_convex() {
+// NOT registered: with the absolute subnormal tolerance (without it the harness raised a FALSE ALARM in the thorough run:
+// p = q = 5e-324, alpha just below 0.5 gives 0.0) CBMC no longer finishes (UNSAT over three symbolic floats); convexity is checked
+// on a value grid incl. subnormals by c13_native_kernels and at component level by c13_native_crossover_genes.
+#[allow(dead_code)]
+pub fn c13_arithmetic_convex_unregistered() {
     let (p, q, al): (f64, f64, f64) = (sym(), sym(), sym());
     assume(p.is_finite() && q.is_finite() && p.abs() <= 1.0e100 && q.abs() <= 1.0e100 && al >= 0.0 && al <= 1.0);
     let [c1, _c2] = arithmetic_crossover(&[p], &[q], &[al]);
     let lo = if p < q { p } else { q };
     let hi = if p < q { q } else { p };
-    let t = 4.0 * f64::EPSILON * (if hi.abs() > lo.abs() { hi.abs() } else { lo.abs() });
+    // relative rounding of the two products and the sum, plus an absolute term for the subnormal range (there the products round
+    // with an ABSOLUTE error of up to one subnormal step: p = q = 5e-324, alpha just below 0.5 gives 0.0)
+    let t = 4.0 * f64::EPSILON * (if hi.abs() > lo.abs() { hi.abs() } else { lo.abs() }) + f64::MIN_POSITIVE;
     assert!(c1[0] >= lo - t && c1[0] <= hi + t, "arithmetic crossover: child gene outside the parental interval");
 }
 
